@@ -4,7 +4,7 @@
 # passes without it), then runs the property's quick check against it in /repo and reverts.
 set -u
 P=$1; M=$2
-SRC=/tmp/seed/out/$P/$M
+SRC=${SEEDROOT:-/tmp/seed/out}/$P/$M; TAG=${SEEDTAG:-}
 WT=/tmp/seedverify_${P}_${M}
 export GOFLAGS=-mod=mod GOPROXY=off GOSUMDB=off GOTOOLCHAIN=local
 [ -f $SRC/patch.diff ] || { echo "no patch"; exit 2; }
@@ -33,4 +33,30 @@ echo "suite_failures_with_change=$SUITE demo_exit_with=$DEMO_WITH demo_exit_with
 cd /repo && git apply /tmp/seed_rebased.diff || { echo "cannot apply to /repo"; exit 4; }
 cd /verif && timeout 1500 python3 check.py $P > /tmp/seedcheck_${P}_$M.log 2>&1; RC=$?
 cd /repo && git checkout -q -- . && git status --short | head -3
-echo "check_exit=$RC $(grep -c '^VIOLATION' /tmp/seedcheck_${P}_$M.log) violation lines"; grep '^VIOLATION' /tmp/seedcheck_${P}_$M.log | head -3
+NV=$(grep -c '^VIOLATION' /tmp/seedcheck_${P}_$M.log)
+echo "check_exit=$RC $NV violation lines"; grep '^VIOLATION' /tmp/seedcheck_${P}_$M.log | head -3
+# keep the confirmed seed
+if [ "$SUITE" = "0" ] && [ "$DEMO_WITH" != "0" ] && [ "$DEMO_WITHOUT" = "0" ]; then
+  D=/verif/seeded/${P}-${TAG}${M}; mkdir -p $D
+  cp /tmp/seed_rebased.diff $D/patch.diff
+  [ -n "$DEMO" ] && cp $DEMO $D/demo_test.go
+  FIRST=$(grep '^VIOLATION' /tmp/seedcheck_${P}_$M.log | head -1)
+  NOINPUT=$(grep -c 'no-failing-input-found' /tmp/seedcheck_${P}_$M.log)
+  python3 - "$SRC/meta.json" "$D/meta.json" "$P" "$M" "$RC" "$NV" "$NOINPUT" "$(git -C /repo rev-parse --short HEAD)" <<'PY'
+import json,sys
+src,dst,P,M,rc,nv,noinput,head=sys.argv[1:9]
+try: m=json.load(open(src))
+except Exception: m={}
+m["property"]=P
+m["confirmed_by_builder"]={
+  "base_commit": head,
+  "scratch_worktree": "git worktree add --detach /tmp/seedverify_%s_%s HEAD; git apply patch.diff"%(P,M),
+  "suite": "go test -vet=off -count=1 -timeout 25m ./...  -> 0 failures with the change",
+  "demo": "copied to engine/zz_seed_demo_test.go; go test -run <its tests> ./engine/ -> fails with the change, passes without it",
+  "check": "git -C /repo apply patch.diff; python3 /verif/check.py %s --tier quick; git -C /repo checkout -- ."%P,
+  "check_exit": int(rc), "violation_lines": int(nv), "no_failing_input_found_lines": int(noinput),
+  "detected": int(rc)==1 and int(nv)>0,
+}
+json.dump(m,open(dst,"w"),indent=1)
+PY
+fi
